@@ -33,6 +33,12 @@ func (op *EditCommentOperation) Apply(snapshot *Snapshot) {
 	// Todo: currently any message can be edited, even by a different author
 	// crypto signature are needed.
 
+	// The combined Id only holds a prefix of the target Id: make sure that the target
+	// is really an operation that created a comment, otherwise the edit is a no-op
+	if _, err := snapshot.SearchCommentByOpId(op.Target); err != nil {
+		return
+	}
+
 	// Recreate the combined Id to match on
 	combinedId := entity.CombineIds(snapshot.Id(), op.Target)
 
